@@ -54,7 +54,16 @@ ALG_CTOR = {"md5": "Md5", "md5-dos2unix": "Md5D2U", "sha256": "Sha256"}
 CLS_CTOR = {"local": "Local", "base": "Base"}
 
 CONTENTS = [b"", b"A", b"B", b"x\r\ny\r\n", b"x\ny\n", b"\x00bin\r\n", "é".encode(), b"\r\n", b"a\rb",
-            b"\x01\x02\x03\r\n\x04\x05", b"tab\there\r\n"]
+            b"\x01\x02\x03\r\n\x04\x05", b"tab\there\r\n",
+            b"\x01\x02\x03abcd\r\nx",      # 3 non-text bytes of 10: exactly 30% -> text -> CRLF normalised
+            b"\x01\x02\x03\x04abcdefg\r\n",  # 4 of 13: binary -> hashed as is
+            b"x\ny\n"]
+# text for its first 512 bytes, binary later: the heuristic only looks at the head (rare: 526-byte literal)
+LONG = b"ab\r\n" * 129 + b"\x00\x01\xff\r\n\x02\r\n" + b"z"
+
+
+def pick(rng):
+    return LONG if rng.random() < 0.03 else rng.choice(CONTENTS)
 NAMES = ["a", "b", "ü", "c d", 'q"x', "b\\s", "€", "n\nl", "\U0001f600", "z.dir", "D"]
 
 
@@ -73,9 +82,28 @@ def digest(alg: str, b: bytes) -> str:
     return hashlib.new(alg, b).hexdigest()
 
 
-def audit(cfg, snaps):
+def stray_files(root):
+    """files of a store directory that are not at <2 chars>/<rest> (the only record of an object's
+    identity is that path), except the temporary upload files build(upload=True) leaves in the root"""
+    out = []
+    for r, _ds, fs in os.walk(root):
+        rel = os.path.relpath(r, root)
+        for f in fs:
+            if rel == ".":
+                if not (f.startswith(".") and f.endswith(".tmp")):
+                    out.append(f)
+            elif os.sep in rel or len(rel) != 2:
+                out.append(os.path.join(rel, f))
+    return out
+
+
+def audit(cfg, snaps, roots=()):
     """the property itself on the observed stores: [(signature, what)]"""
     out = []
+    for si, r in enumerate(roots):
+        bad = stray_files(r)
+        if bad:
+            out.append(("C01:bad-layout", f"store {si}: files outside the <oid[:2]>/<oid[2:]> layout: {sorted(bad)[:3]}"))
     for si, ((cls, alg), snap) in enumerate(zip(cfg, snaps)):
         for oid, (data, mode) in snap.items():
             if oid.endswith(".dir"):
@@ -112,7 +140,7 @@ def gen_tree(rng, depth=0, maxfiles=5):
             for k, v in gen_tree(rng, depth + 1, 2).items():
                 t[n + "/" + k] = v
         else:
-            t[n] = rng.choice(CONTENTS)
+            t[n] = pick(rng)
     return t
 
 
@@ -126,17 +154,57 @@ def hx(b: bytes) -> str:
     return b.hex()
 
 
+def gen_nonwf(rng, cfg, snaps):
+    """one operation that breaks the caller's obligations WfOp (the malformed stream): the model must still
+    agree with the real code byte for byte, and Coq's wf_op_b must say 0 for it"""
+    n = len(cfg)
+    shas = [j for j in range(n) if cfg[j][1] == "sha256"]
+    for _ in range(12):
+        kind = rng.choice(["sha-dir", "sha-save", "add-lie", "add-lie", "cross", "cross"])
+        if kind == "sha-dir" and shas:
+            t = gen_tree(rng)
+            return {"op": "stage", "store": rng.choice(shas), "tree": {k: hx(v) for k, v in t.items()}, "nonwf": True}
+        if kind == "sha-save" and shas:
+            t = {"d/" + k: v for k, v in gen_tree(rng, 1, 3).items()}
+            return {"op": "save", "store": rng.choice(shas), "tree": {k: hx(v) for k, v in t.items()}, "nonwf": True}
+        if kind == "add-lie":
+            si = rng.randrange(n)
+            alg = cfg[si][1]
+            a, b = rng.sample(CONTENTS[:11], 2)
+            if digest(alg, a) == digest(alg, b):
+                continue
+            oid = digest(alg, b) if rng.random() < 0.7 else digest(rng.choice([x for x in ALGS if x != alg]), a)
+            if oid == digest(alg, a):
+                continue
+            return {"op": "add", "store": si, "data": hx(a), "oid": oid, "nonwf": True}
+        if kind == "cross":
+            pairs = [(i, j) for i in range(n) for j in range(n) if cfg[i][1] != cfg[j][1] and snaps[i]]
+            if not pairs:
+                continue
+            src, dst = rng.choice(pairs)
+            pool = sorted(snaps[src])
+            ids = rng.sample(pool, min(len(pool), rng.randint(1, 3)))
+            return {"op": "transfer", "src": src, "dst": dst, "ids": sorted(ids), "shallow": rng.random() < 0.3,
+                    "nonwf": True}
+    return None
+
+
 def gen_op(rng, cfg, snaps):
     """one operation, chosen against the current real stores"""
     n = len(cfg)
     for _ in range(20):
         kind = rng.choice(["stage"] * 6 + ["upload"] * 2 + ["add"] * 2 + ["transfer"] * 5 + ["save"] * 4 + ["migrate"] * 3)
         si = rng.randrange(n)
+        if kind == "upload" and rng.random() < 0.75:
+            md5s = [j for j in range(n) if cfg[j][1] == "md5"]
+            if not md5s:
+                continue
+            si = rng.choice(md5s)
         alg = cfg[si][1]
         if kind in ("stage", "upload"):
             r = rng.random()
             if alg == "sha256" or r < 0.25:
-                return {"op": kind, "store": si, "file": hx(rng.choice(CONTENTS))}
+                return {"op": kind, "store": si, "file": hx(pick(rng))}
             if r < 0.32:
                 return {"op": kind, "store": si, "tree": {}}
             return {"op": kind, "store": si, "tree": {k: hx(v) for k, v in gen_tree(rng).items()}}
@@ -150,7 +218,7 @@ def gen_op(rng, cfg, snaps):
                 lst = sorted(({key: h, "relpath": rp} for rp, h in ents), key=lambda d: d["relpath"])
                 data = json.dumps(lst, sort_keys=True).encode()
                 return {"op": "add", "store": si, "data": hx(data), "oid": digest(alg, data) + ".dir"}
-            data = rng.choice(CONTENTS)
+            data = pick(rng)
             return {"op": "add", "store": si, "data": hx(data), "oid": digest(alg, data)}
         if kind == "transfer":
             cands = [j for j in range(n) if j != si and cfg[j][1] == alg]
@@ -194,7 +262,8 @@ def ckey(parts) -> str:
 
 
 def run_op(ctx, op, cfg, odbs, roots, ws_root, step):
-    """executes one operation on the real stores; returns (code, coq op term)"""
+    """executes one operation on the real stores; returns (code, coq op term, op-specific oracle problems)"""
+    extra = []
     from dvc_objects.fs.local import localfs
 
     from dvc_data.hashfile.build import build
@@ -269,8 +338,8 @@ def run_op(ctx, op, cfg, odbs, roots, ws_root, step):
             code = impl.err_code(exc)
         for key, data, rec in files:
             if rec != digest(alg, data):
-                ctx.oracle_fail("C01:index-md5-untruthful", f"index.md5 recorded {rec} for content whose {alg} digest is "
-                                f"{digest(alg, data)}", None)
+                extra.append(("C01:index-md5-untruthful", f"index.md5 recorded {rec} for content whose {alg} digest "
+                              f"is {digest(alg, data)}"))
         term = ctor("OSaveIndex", str(si), clist([ckey(k) for k in dirs]),
                     clist([f"({ckey(k)}, {cbytes(d)}, {cbytes(r)})" for k, d, r in files]))
     elif kind == "migrate":
@@ -290,13 +359,22 @@ def run_op(ctx, op, cfg, odbs, roots, ws_root, step):
                         hard = False
         except Exception as exc:  # noqa: BLE001
             code = impl.err_code(exc)
+        if code == 0:
+            # migrate's own clause of the property: every source object is in the destination under the
+            # destination algorithm's digest of its bytes, a directory object with '.dir' carried over
+            after = impl.walk_store(roots[dst])
+            for o, (data, _m) in impl.walk_store(roots[src]).items():
+                want = digest(cfg[dst][1], data) + (".dir" if o.endswith(".dir") else "")
+                if want not in after:
+                    extra.append(("C01:migrate-not-filed-under-digest",
+                                  f"migrate {src}->{dst}: source object {o} is not in the destination under {want}"))
         if not hard:
             ctx.count("env:migrate-without-hardlink")
         term = ctor("OMigrate", str(src), str(dst), clist([cbytes(o) for o in order]), cbool(hard))
     else:
         raise ValueError(kind)
     impl.rm_rf(ws)
-    return code, term
+    return code, term, extra
 
 
 def delta_val(prev, nxt):
@@ -304,7 +382,7 @@ def delta_val(prev, nxt):
     return vL([vN(len(nxt)), vL([vL([vB(o), vB(v[0]), vN(v[1])]) for o, v in ch])])
 
 
-def run_history(ctx, cfg, ops=None, nsteps=0):
+def run_history(ctx, cfg, ops=None, nsteps=0, malformed=False):
     """runs a history (given, or generated step by step) on fresh real stores.
     returns (case, input term, expected val, problems [(sig, what, step)], changed steps)"""
     root = ctx.fresh("c01")
@@ -317,11 +395,17 @@ def run_history(ctx, cfg, ops=None, nsteps=0):
     changed = 0
     kinds = set()
     total = len(ops) if ops is not None else nsteps
-    for step in range(total):
-        op = ops[step] if ops is not None else gen_op(ctx.rng, cfg, snaps)
-        code, term = run_op(ctx, op, cfg, odbs, roots, root, step)
+    for step in range(total + (1 if malformed else 0)):
+        if step == total:
+            op = gen_nonwf(ctx.rng, cfg, snaps)
+            if op is None:
+                break
+        else:
+            op = ops[step] if ops is not None else gen_op(ctx.rng, cfg, snaps)
+        code, term, extra = run_op(ctx, op, cfg, odbs, roots, root, step)
         new = [impl.walk_store(r) for r in roots]
-        exp.append(vL([vN(code), vL([delta_val(p, n) for p, n in zip(snaps, new)])]))
+        wf = 0 if op.get("nonwf") else 1  # Coq's wf_op_b must agree: the generator keeps WfOp unless it says otherwise
+        exp.append(vL([vN(code), vN(wf), vL([delta_val(p, n) for p, n in zip(snaps, new)])]))
         if new != snaps:
             changed += 1
             kinds.add(op["op"])
@@ -329,7 +413,10 @@ def run_history(ctx, cfg, ops=None, nsteps=0):
         done.append(op)
         terms.append(term)
         ctx.count("op:" + op["op"] + ("" if code == 0 else f":err{code}"))
-        bad = audit(cfg, snaps)
+        if op.get("nonwf"):
+            ctx.count("nonwf:violates" if audit(cfg, snaps, roots) else "nonwf:harmless")
+            break  # the caller broke the contract: nothing is claimed about what follows
+        bad = extra + audit(cfg, snaps, roots)
         if bad:
             problems = [(s, w, step) for s, w in bad]
             break
@@ -358,7 +445,7 @@ CORPUS = [
 
 def run(ctx):
     items = []
-    ncases = ctx.n(40, 420)
+    ncases = ctx.n(80, 1000)
     maxlen = 8 if ctx.tier == "quick" else 20
     todo = [(c["stores"], c["ops"]) for c in CORPUS]
     cdir = os.path.join(os.path.dirname(os.path.dirname(os.path.dirname(os.path.abspath(__file__)))), "corpus", "C01")
@@ -368,25 +455,40 @@ def run(ctx):
                 with open(os.path.join(cdir, fn)) as f:
                     c = json.load(f)
                 todo.append((c["stores"], c["ops"]))
-    for _ in range(ncases):
+    for i in range(ncases):
         todo.append((gen_cfg(ctx.rng), None))
     steps = 0
-    for cfg, ops in todo:
+    mal_items = []
+    for ci, (cfg, ops) in enumerate(todo):
         nsteps = ctx.rng.randint(3, maxlen) if ops is None else 0
-        case, inp, exp, problems, changed, kinds = run_history(ctx, cfg, ops, nsteps)
+        malformed = ops is None and ci % 5 == 4
+        case, inp, exp, problems, changed, kinds = run_history(ctx, cfg, ops, nsteps, malformed)
+        if malformed and case["ops"] and case["ops"][-1].get("nonwf"):
+            steps += len(case["ops"])
+            ctx.case(case, True)
+            ctx.count("stream:malformed")
+            for sig, what, step in problems:
+                ctx.oracle_fail(sig, f"after step {step}: {what}", {"stores": cfg, "ops": case["ops"][:step + 1]})
+            if not problems:
+                mal_items.append((case, inp, exp))
+            continue
         steps += len(case["ops"])
         ctx.case(case, changed >= 3)
         ctx.count("stores:%d" % len(cfg))
         for c, a in cfg:
             ctx.count(f"store:{c}/{a}")
         for sig, what, step in problems:
-            ctx.oracle_fail(sig, f"after step {step}: {what}", case)
+            ctx.oracle_fail(sig, f"after step {step}: {what}", {"stores": cfg, "ops": case["ops"][:step + 1]})
         if not problems:
             items.append((case, inp, exp))
     ctx.obligation("oracle:rehash-every-object-after-every-step",
                    not any(v.kind == "oracle" for v in ctx.violations),
                    f"{steps} steps of {len(todo)} histories audited with hashlib (names, canonical listings, modes)")
     ctx.correspond("history", IMPORTS, IN_TYPE, MODEL, items, shard=4)
+    # malformed stream: the last operation breaks WfOp (sha256 directory staging / index directories, an
+    # untruthful external add, a transfer across algorithms); model and code must still agree, and the
+    # Coq-side checker wf_op_b must reject exactly that operation
+    ctx.correspond("nonwf_history", IMPORTS, IN_TYPE, MODEL, mal_items, shard=4)
 
 
 def replay_case(ctx, case):
